@@ -103,10 +103,13 @@ MACRO_PROBES = [
     # rule order: the first matching rule wins; later rules are not consulted; no match is an error
     ("(define-syntax m (syntax-rules () ((m a) 'one) ((m a b) 'two) ((m a b c) 'three)))\n(vector (m 1) (m 1 2) (m 1 2 3))", ["OK -", "OK VM 3 Y 6f6e65 Y 74776f Y 7468726565"]),
     ("(define-syntax m (syntax-rules () ((m a) 'one)))\n(m 1 2)", ["OK -", "ERR Syntax"]),
+    ("(define-syntax m (syntax-rules () ((m a ...) '(many a ...)) ((m a b) '(two a b))))\n(m 1 2)", ["OK -", "OK L 3 Y 6d616e79 I 1 I 2"]),
+    ("(define-syntax m (syntax-rules () ((m a b) '(two a b)) ((m a ...) '(many a ...))))\n(vector (m 1 2) (m 1))", ["OK -", "OK VM 2 L 3 Y 74776f I 1 I 2 L 2 Y 6d616e79 I 1"]),
     # bindings of a rule that failed must not leak into the rule that matches
     ("(define-syntax m (syntax-rules () ((m x) 'first) ((m a b) '(x a b))))\n(m 1 2)", ["OK -", "OK L 3 Y 78 I 1 I 2"]),
     # literal identifiers match only themselves; literal data only equal data
     ("(define-syntax m (syntax-rules (else) ((m else) 'lit) ((m x) 'var)))\n(vector (m else) (m other))", ["OK -", "OK VM 2 Y 6c6974 Y 766172"]),
+    ("(define-syntax r (syntax-rules (from to) ((r from x) '(f x)) ((r to x) '(t x)) ((r y x) '(o x))))\n(vector (r from 1) (r to 2) (r up 3))", ["OK -", "OK VM 3 L 2 Y 66 I 1 L 2 Y 74 I 2 L 2 Y 6f I 3"]),
     ("(define-syntax m (syntax-rules () ((m 1) 'one) ((m 2) 'two) ((m x) 'other)))\n(vector (m 1) (m 2) (m 3))", ["OK -", "OK VM 3 Y 6f6e65 Y 74776f Y 6f74686572"]),
     # vectors match vectors, lists match lists
     ("(define-syntax k (syntax-rules () ((k #(a ...)) '(vector a ...)) ((k (a ...)) '(list a ...))))\n(k (1 2 3))\n(k #(1 2 3))", ["OK -", "OK L 4 Y 6c697374 I 1 I 2 I 3", "OK L 4 Y 766563746f72 I 1 I 2 I 3"]),
@@ -117,6 +120,9 @@ MACRO_PROBES = [
     # a datum that does not match the sub-pattern under the ellipsis rejects the rule (no silent dropping)
     ("(define-syntax p (syntax-rules () ((p (a b) ...) '((b a) ...))))\n(p (1 2) 3)", ["OK -", "ERR Syntax"]),
     ("(define-syntax v (syntax-rules () ((v #(a b) ...) 'two) ((v x ...) 'other)))\n(v #(1 2) #(3))", ["OK -", "OK Y 6f74686572"]),
+    # a variable with a single match inside an ellipsis sub-template is repeated with every item
+    ("(define-syntax t (syntax-rules () ((t s x ...) '#(#(s x) ...))))\n(t 0 1 2 3)", ["OK -", "OK VI 3 VI 2 I 0 I 1 VI 2 I 0 I 2 VI 2 I 0 I 3"]),
+    ("(define-syntax t (syntax-rules () ((t s x ...) '((x s) ...))))\n(t 0 1 2 3)", ["OK -", "OK L 3 L 2 I 1 I 0 L 2 I 2 I 0 L 2 I 3 I 0"]),
     # a pattern variable used twice, `_`
     ("(define-syntax d (syntax-rules () ((d _ x) '(x x))))\n(d 9 7)", ["OK -", "OK L 2 I 7 I 7"]),
 ]
@@ -215,6 +221,87 @@ def spec_transform(chk, NR):
                    z3.And(*post), {}, replay)
 
 
+def spec_rule_collection(chk, NR):
+    """Parser::transform_transformer: the rules of a (syntax-rules (literal ...) rule ...) form reach the transformer in TEXTUAL
+    order, one per rule form, and the literal list is the form's second element (list traversal and the conversion of a single
+    rule / identifier are stubbed and logged)"""
+    from ..core import IterObj
+    ex = chk.executor(True)
+    nat = chk.ws.runner("dev")
+    unit = "Parser::transform_transformer (list traversal, transform_syntax_rule and transform_identifier stubbed)"
+    chk.region_ns = {}
+    replay = lambda vals: macro_probe(nat)
+    nr = z3.Int("nrules")
+    ex.ctx.add(nr >= 0, nr <= NR)
+    form = Lazy("parser::datum::Datum", "form")
+    kw = Lazy("parser::datum::Datum", "syntax_rules_symbol")
+    lits = Adt("Located", None, [Adt("DatumBody", "Pair", [Ref(Cell(Opaque("DatumList", "literal_list")))]), LOC])
+    rule_forms = [Lazy("parser::datum::Datum", "ruleform%d" % i) for i in range(NR)]
+    items = SeqObj("form_items", "parser::datum::Datum", [Cell(kw), Cell(lits)] + [Cell(r) for r in rule_forms], 2 + nr, 2 + NR)
+    lit_items = SeqObj("literal_items", "parser::datum::Datum", [], 0, 0)
+
+    @skel.stub(ex, r"::expect_list$", "Datum::expect_list -> the datum's list (opaque)")
+    def expect_list(ex, callee, args, rt):
+        d = ex.deref(args[0])
+        ex.log("expect_list", datum=d)
+        yield Ok(Opaque("DatumList", "list_of_form" if d is form else "other_list"))
+
+    @skel.stub(ex, r"^<(parser::pair::)?GenericPair<.*> as IntoIterator>::into_iter$|GenericPair(::)?(<.*>)?::into_iter$", "list traversal -> the form's items / the literal list's items in order")
+    def into_iter(ex, callee, args, rt):
+        lst = ex.deref(args[0])
+        tag = getattr(lst, "tag", "")
+        if tag == "list_of_form":
+            yield IterObj("seq", seq=items, pos=0, by_ref=False, mut=False)
+        elif tag == "literal_list":
+            yield IterObj("seq", seq=lit_items, pos=0, by_ref=False, mut=False)
+        else:
+            raise Unsupported("traversal of an unexpected list %r" % (lst,))
+
+    @skel.stub(ex, r"::transform_syntax_rule$", "transform_syntax_rule -> Ok((pattern_i, template_i)) or Err; logged with the rule form")
+    def tsr(ex, callee, args, rt):
+        d = ex.deref(args[1])
+        n = len([e for e in ex.events if e["kind"] == "rule"])
+        pat = Lazy("parser::macros::SyntaxPattern", "pattern_of_%s" % getattr(d, "name", "?"))
+        ex.log("rule", form=d, pattern=pat)
+        from ..core import Tup
+        yield Ok(Tup([pat, Lazy("parser::macros::SyntaxTemplate", "template_of_%s" % getattr(d, "name", "?"))]))
+        e = skel.err_value("from transform_syntax_rule")
+        ex.log("rule_err", error=e)
+        yield Err(e)
+
+    @skel.stub(ex, r"::transform_identifier$", "transform_identifier -> any name")
+    def tid(ex, callee, args, rt):
+        yield Ok(StrVal("lit"))
+
+    install_pair_stub(ex)       # should the code look into a converted pattern: an arbitrary sequence of sub-patterns
+    f = ex.fn_by_suffix("::transform_transformer")
+    ex.panic_hook = lambda info: chk.oblige(ex, unit, "no-panic", z3.BoolVal(False), {"nrules": nr}, replay)
+    for rv in ex.run(f, [Ref(Cell(StrVal("m"))), form]):
+        chk.path(unit)
+        evs = [e for e in ex.events if e["kind"] == "rule"]
+        errs = [e for e in ex.events if e["kind"] == "rule_err"]
+        for k in skel.each_value(ex, nr, range(NR + 1)):
+            post = []
+            # every rule form is converted once, in textual order (up to the first failure)
+            post.append(z3.BoolVal(all(e["form"] is rule_forms[i] for i, e in enumerate(evs)) and len(evs) <= k))
+            is_err = isinstance(rv, Adt) and rv.variant == "Err"
+            if errs:
+                post.append(z3.BoolVal(is_err and rv.fields[0] is errs[0]["error"]))
+            else:
+                ok = isinstance(rv, Adt) and rv.variant == "Ok"
+                post.append(z3.BoolVal(ok and len(evs) == k))
+                if ok:
+                    udt = rv.fields[0]
+                    rules = ex.deref(udt.fields[2]) if isinstance(udt, Adt) else None
+                    good = isinstance(rules, SeqObj) and conc_len(ex, rules) == k
+                    if good:
+                        for i in range(k):
+                            t = ex.deref(rules.items[i].v)
+                            good = good and hasattr(t, "items") and ex.deref(t.items[0]) is evs[i]["pattern"]
+                    post.append(z3.BoolVal(bool(good)))
+            chk.oblige(ex, unit, "the transformer's rules are the converted rule forms in textual order", z3.And(*post), {"nrules": nr}, replay)
+
+
 def install_pair_stub(ex):
     @skel.stub(ex, r"GenericPair(::)?(<.*>)?::iter$|::last_cdr$", "GenericPair traversal: not encoded - a list datum yields an arbitrary sequence of items; reached only when a LIST is traversed, which the Vec-level units never ask for")
     def pair_ops(ex, callee, args, rt):
@@ -263,43 +350,43 @@ def spec_stream(chk, ND):
                 chk.oblige(ex, unit, "matching a supported pattern never fails with an error", z3.BoolVal(False), {"ndata": n}, replay)
                 continue
             res = rv.fields[0]
-            nn = next((k for k in range(ND + 1) if ex.ctx.check(n == k) == z3.sat), None)
-            items = [ex.seq_item(data, i).v for i in range(nn)]
-            binds = {}
-            conds = []
-            runs = {}
-            if has_ell:
-                conds.append(z3.BoolVal(nn >= len(fixed) + 1))           # one or more items per ellipsis
-            else:
-                conds.append(z3.BoolVal(nn == len(fixed)))
-            for i, p in enumerate(fixed):
-                if i < nn:
-                    conds.append(atom_oracle(ex, p, items[i], lits, binds))
-            if has_ell:
-                for j in range(len(fixed), nn):
-                    b = {}
-                    conds.append(atom_oracle(ex, rep, items[j], lits, b))
-                    for var, obj in b.items():
-                        runs.setdefault(var, []).append(obj)
-            expected = z3.And(*conds)
-            post = [res == expected]
-            # the substitution table after a successful match: variable -> (first match, further matches in order)
-            tb = {k.concrete(): (p, c.v) for (k, p, c) in table.entries}
-            good = []
-            for var, obj in binds.items():
-                ent = tb.get(var)
-                okv = ent is not None and isinstance(ent[1], Tup) and ent[1].items[0] is obj and isinstance(ex.deref(ent[1].items[1]), SeqObj) and conc_len(ex, ex.deref(ent[1].items[1])) == 0
-                good.append(z3.BoolVal(bool(okv)))
-            for var, objs in runs.items():
-                ent = tb.get(var)
-                okv = False
-                if ent is not None and isinstance(ent[1], Tup):
-                    rest = ex.deref(ent[1].items[1])
-                    okv = ent[1].items[0] is objs[0] and isinstance(rest, SeqObj) and conc_len(ex, rest) == len(objs) - 1 and all(rest.items[i].v is objs[i + 1] for i in range(len(objs) - 1))
-                good.append(z3.BoolVal(bool(okv)))
-            post.append(z3.Implies(expected, z3.And(*good) if good else z3.BoolVal(True)))
-            chk.oblige(ex, unit, "matches exactly when every pattern matches its datum (a sub-pattern followed by ... matches a run of one or more); each variable is bound to what it matched, the run's items in order",
-                       z3.And(*post), {"ndata": n}, replay)
+            for nn in skel.each_value(ex, n, range(ND + 1)):          # a path that did not look at the number of data must be right for each
+                items = [ex.seq_item(data, i).v for i in range(nn)]
+                binds = {}
+                conds = []
+                runs = {}
+                if has_ell:
+                    conds.append(z3.BoolVal(nn >= len(fixed) + 1))           # one or more items per ellipsis
+                else:
+                    conds.append(z3.BoolVal(nn == len(fixed)))
+                for i, p in enumerate(fixed):
+                    if i < nn:
+                        conds.append(atom_oracle(ex, p, items[i], lits, binds))
+                if has_ell:
+                    for j in range(len(fixed), nn):
+                        b = {}
+                        conds.append(atom_oracle(ex, rep, items[j], lits, b))
+                        for var, obj in b.items():
+                            runs.setdefault(var, []).append(obj)
+                expected = z3.And(*conds)
+                post = [res == expected]
+                # the substitution table after a successful match: variable -> (first match, further matches in order)
+                tb = {k.concrete(): (p, c.v) for (k, p, c) in table.entries}
+                good = []
+                for var, obj in binds.items():
+                    ent = tb.get(var)
+                    okv = ent is not None and isinstance(ent[1], Tup) and ent[1].items[0] is obj and isinstance(ex.deref(ent[1].items[1]), SeqObj) and conc_len(ex, ex.deref(ent[1].items[1])) == 0
+                    good.append(z3.BoolVal(bool(okv)))
+                for var, objs in runs.items():
+                    ent = tb.get(var)
+                    okv = False
+                    if ent is not None and isinstance(ent[1], Tup):
+                        rest = ex.deref(ent[1].items[1])
+                        okv = ent[1].items[0] is objs[0] and isinstance(rest, SeqObj) and conc_len(ex, rest) == len(objs) - 1 and all(rest.items[i].v is objs[i + 1] for i in range(len(objs) - 1))
+                    good.append(z3.BoolVal(bool(okv)))
+                post.append(z3.Implies(expected, z3.And(*good) if good else z3.BoolVal(True)))
+                chk.oblige(ex, unit, "matches exactly when every pattern matches its datum (a sub-pattern followed by ... matches a run of one or more); each variable is bound to what it matched, the run's items in order",
+                           z3.And(*post), {"ndata": n}, replay)
 
 
 def conc_len(ex, seq):
@@ -313,7 +400,7 @@ def spec_match_kinds(chk):
     """match_datum on every pattern kind against an arbitrary datum: kinds must agree (a vector pattern never matches a list, ...)"""
     nat = chk.ws.runner("dev")
     replay = lambda vals: macro_probe(nat)
-    cases = [("_", P("_"), []), ("x", P("id", "x"), []), ("else[literal]", P("id", "else"), ["else"]), ("1", P("int", 1), []),
+    cases = [("_", P("_"), []), ("x", P("id", "x"), []), ("else[literal]", P("id", "else"), ["else"]), ("else[literal among several]", P("id", "else"), ["=>", "else", "to"]), ("1", P("int", 1), []),
              ("#(a b)", P("vec", [P("id", "a"), P("id", "b")]), []), ("#()", P("vec", []), [])]
     for label, pat, lits in cases:
         ex = chk.executor(True)
@@ -381,18 +468,19 @@ def spec_template(chk, NR):
         for rv in ex.run(f, [Ref(Cell(tmpl)), Ref(Cell(table))]):
             chk.path(unit)
             ok = isinstance(rv, Adt) and rv.variant == "Ok"
-            post = [z3.BoolVal(ok)]
-            if ok:
-                out = ex.deref(rv.fields[0])
-                k = next((j for j in range(NR + 1) if ex.ctx.check(nrest == j) == z3.sat), 0)
-                xs = [x0] + [ex.seq_item(rest, i).v for i in range(k)]
-                want = expect(sv, xs)
-                good = isinstance(out, SeqObj) and conc_len(ex, out) == 1
-                if good:
-                    good = same_datum(ex, out.items[0].v, ("vec", want))
-                post.append(z3.BoolVal(bool(good)))
-            chk.oblige(ex, unit, "every pattern variable is replaced by what it matched; an ellipsis sub-template is repeated once per matched item, in order; other identifiers and literals are copied",
-                       z3.And(*post), {"nrest": nrest}, replay)
+            # the length of the run is an input: a path that never looked at it must be right for every length
+            for k in ex.branches([nrest == j for j in range(NR + 1)]):
+                post = [z3.BoolVal(ok)]
+                if ok:
+                    out = ex.deref(rv.fields[0])
+                    xs = [x0] + [ex.seq_item(rest, i).v for i in range(k)]
+                    want = expect(sv, xs)
+                    good = isinstance(out, SeqObj) and conc_len(ex, out) == 1
+                    if good:
+                        good = same_datum(ex, out.items[0].v, ("vec", want))
+                    post.append(z3.BoolVal(bool(good)))
+                chk.oblige(ex, unit, "every pattern variable is replaced by what it matched; an ellipsis sub-template is repeated once per matched item, in order; other identifiers and literals are copied",
+                           z3.And(*post), {"nrest": nrest}, replay)
 
 
 def same_datum(ex, got, want):
@@ -430,6 +518,7 @@ def run(chk):
     ]
     chk.run_probes("syntax-rules", macro_probe, chk.ws.runner("dev"), len(MACRO_PROBES))
     chk.step("transform", spec_transform, chk, 3)
+    chk.step("rule collection", spec_rule_collection, chk, 3)
     chk.step("match kinds", spec_match_kinds, chk)
     chk.step("stream", spec_stream, chk, ND)
     chk.step("templates", spec_template, chk, ND)
